@@ -3,5 +3,6 @@ CONSTANTS
     Kinds = {"T", "C", "R", "L", "N", "H"}
     MaxLen = 0
     ReadSizes = {}
+    WindowUnits = 2
     Short = FALSE
 INVARIANT Judge
